@@ -511,9 +511,66 @@ def noSpuriousRefusalClause (o : Objs) (b : Obs) : List String :=
           then [s!"listener_refused_although_permitted {l.name}"] else []
   routes ++ listeners
 
+
+/-! ### the 500 SHARE of unpermitted backends in a weighted rule -/
+
+/-- `12.34%` / `100%` → hundredths of a percent -/
+def parsePct (t : String) : Option Nat :=
+  let cs := t.toList.filter (· != '%')
+  match (strOf cs).splitOn "." with
+  | [a] => a.toNat?.map (· * 100)
+  | [a, b] =>
+    match a.toNat?, (strOf (b.toList.take 2 ++ List.replicate (2 - min 2 b.length) '0')).toNat? with
+    | some x, some y => some (x * 100 + y)
+    | _, _ => none
+  | _ => none
+
+/-- `split_clients $request_id $var { pct value; … }` → (var without `$`, [(hundredths, value)]); a share that does not
+parse counts as 0 -/
+def splitShares (top : List Dir) : List (String × List (Nat × String)) :=
+  top.filterMap fun d =>
+    if dirName d == "split_clients" then
+      some (((argAt d 1).toList.drop 1 |> strOf), (children d).map fun c => ((parsePct (dirName c)).getD 0, argAt c 0))
+    else none
+
+/-- the weight `createBackendRef` gives a backendRef: 1 when omitted, 0 when out of range -/
+def effWeight (ref : BackendRef) : Nat :=
+  match ref.weight with
+  | none => 1
+  | some w => if weightOK w then w.toNat else 0
+
+/-- "Without such a grant the backend is answered with 500": in a rule with several weighted backendRefs the share of
+`invalid-backend-ref` in the REAL split_clients block of the rule is at least (Σ weights of the unpermitted
+cross-namespace refs) / (Σ weights of all refs), up to one hundredth of a percent per backendRef (the rounding of C15).
+Rules whose group variable is shared with another route (known findings) are left to the clauses that report those. -/
+def shareClause (o : Objs) (b : Obs) : List String :=
+  let shares := splitShares b.http
+  let all := l7Rules o
+  b.groups.flatMap fun g =>
+    match g.kind with
+    | none => []
+    | some kind =>
+      if g.backends.length < 2 then [] else
+      match findRoute o kind g.ns g.name with
+      | none => []
+      | some r =>
+        match r.rules[g.rule]? with
+        | none => []
+        | some rule =>
+          let total := (rule.refs.map effWeight).sum
+          let need := ((rule.refs.filter (refUnpermitted o.grants r)).map effWeight).sum
+          let v := safeVar g.gname
+          if need == 0 || total == 0 || (varOwners all v).length != 1 then [] else
+          match shares.filter (·.1 == v) with
+          | [blk] =>
+            let got := ((blk.2.filter (·.2 == invalidBackendRef)).map (·.1)).sum
+            if (got + rule.refs.length) * total ≥ 10000 * need then []
+            else [s!"split_500_share_too_small {showKind kind}/{g.ns}/{g.name} rule {g.rule}: invalid-backend-ref gets {got}/10000, unpermitted refs hold {need} of weight {total}"]
+          | _ => []
+
 /-- all clauses; `[]` = the property holds on this output -/
 def judge (o : Objs) (b : Obs) : List String :=
   confBackendClause o b ++ confL4Clause o b ++ confKeyPairClause o b ++ fileClause o b ++
-    routeDenyClause o b ++ fiveHundredClause b ++ listenerDenyClause o b ++ noSpuriousRefusalClause o b
+    routeDenyClause o b ++ shareClause o b ++ fiveHundredClause b ++ listenerDenyClause o b ++ noSpuriousRefusalClause o b
 
 end NGF.RefGrant
